@@ -20,13 +20,15 @@ type LockFacts struct {
 	M    *core.Machine[LS]
 	// At records, for every instruction, the set of lock states in which it is reached.
 	At map[ssa.Instruction]map[LS]bool
+	// RootOf maps a lock's canonical name to the root value of its access path.
+	RootOf map[string]ssa.Value
 	// ExitHeld lists returns reached with a lock held.
 	Events int
 }
 
 // lockFacts runs the pairing automaton: acquire only when free, release only the held lock.
 func lockFacts(r *Run, f *ssa.Function, sp core.Spec) *LockFacts {
-	lf := &LockFacts{F: f, Spec: sp, At: map[ssa.Instruction]map[LS]bool{}}
+	lf := &LockFacts{F: f, Spec: sp, At: map[ssa.Instruction]map[LS]bool{}, RootOf: map[string]ssa.Value{}}
 	m := &core.Machine[LS]{P: r.P, Fn: f, Spec: sp}
 	m.Step = func(ctx *core.Ctx[LS], s LS, in ssa.Instruction) []LS {
 		set := lf.At[in]
@@ -54,6 +56,7 @@ func lockFacts(r *Run, f *ssa.Function, sp core.Spec) *LockFacts {
 			return []LS{s}
 		}
 		lf.Events++
+		lf.RootOf[ev.Canon] = ev.AddrV
 		switch {
 		case ev.Class == "bucket" && ev.Acquire:
 			if s.B != "" {
